@@ -340,7 +340,8 @@ def eng_deadline_probes(mods, mon, tag):
     def eng(ctx):
         phases = list(range(0, 100, 7)) + [99] if not ctx.thorough else list(range(100))
         cases = seeded(gen.deadline_probe_cases(phases, ackdls=(0, 11) if not ctx.thorough else (0, 10, 11, 15, 600),
-                                                mods=mods, prefix=tag))
+                                                mods=mods, prefix=tag,
+                                                gaps=(40, 70) if not ctx.thorough else (10, 40, 70, 95)))
         return ctx.seq(tag, cases, relevant=DATA_OPS, triggers={"PULL"}, monitor=mon)
     eng.__name__ = "eng_" + tag.replace("-", "_")
     return eng
@@ -358,7 +359,12 @@ def eng_deadline_pure(ctx):
             ops.append("DL %d" % (10 * gen.S + ms * gen.MS + off))
     for _ in range(ctx.n(2000, 100000)):
         ops.append("DL %d" % rng.randrange(0, 700 * gen.S))
-    for v in [-2147483648, -1, 0, 1, 9, 10, 11, 599, 600, 601, 2147483647] + [rng.randrange(-700, 700) for _ in range(200)]:
+    dx = [-2147483648, -1, 0, 1, 9, 10, 11, 599, 600, 601, 2147483647] + [rng.randrange(-700, 700) for _ in range(200)]
+    for k in (1, 2, 3, 255, 256, 32767):              # values whose low 16 bits are small
+        dx += [k * 65536 + d for d in (-1, 0, 1, 2, 30, 599, 600, 601)]
+    dx += [rng.randrange(-2 ** 31, 2 ** 31) for _ in range(300)]
+    dx += [rng.randrange(1, 32768) * 65536 + rng.randrange(0, 700) for _ in range(300)]
+    for v in dx:
         ops.append("DX %d" % v)
     ops = list(dict.fromkeys(ops))
 
@@ -374,6 +380,12 @@ def eng_deadline_pure(ctx):
                     return i, "C04-deadline-before-instant: AckDeadline::new(EPOCH+%d ns) = EPOCH+%d ns" % (t, d)
                 if d >= t + 100 * gen.MS + 1000:
                     return i, "C04-deadline-too-late: AckDeadline::new(EPOCH+%d ns) = EPOCH+%d ns" % (t, d)
+            if op.startswith("DX "):
+                v = int(op[3:])
+                want = "DX 3" if v < 0 else "DX 0 -" if v == 0 else "DX 0 %d" % min(v, 600)
+                if r != want:
+                    return i, ("C05-seconds: ModifyAckDeadline seconds=%d is read as %r (expected: <0 rejected, 0 nack, "
+                               "1..599 as given, >=600 capped at 600)" % (v, r))
         return None
     PROPS[ctx.pid]["pure_monitor"] = mon
     return ctx.pure("deadline-pure", ops, monitor=mon)
@@ -480,9 +492,9 @@ reg("C02", [eng_data_enum(M.mon_ack_final, {"ACK"}), eng_data_random(M.mon_ack_f
     level_text="Proved for every reachable state / every turn sequence of the model: tracker coherence (the safety condition "
                "of unwrap_unchecked), ack frame, ack inertness, finality of an ack over all continuations, locality to one "
                "subscription. " + SEQ_NOTE,
-    level_note="C02_final carries the hypothesis that later posts never reuse the message id (ids come from per-topic "
-               "counters: C09) and that the ids a subscription holds are distinct; both are preserved by the model's "
-               "steps (C03_partition_preserved) but not yet discharged as one closed server-level statement.")
+    level_note="C02_final carries the hypotheses that the ids a subscription holds are distinct and that later posts "
+               "never reuse the id; C02_ids_distinct discharges them along every server history whose per-topic message "
+               "counters stay below 2^32 (the u32 counter of the Rust).")
 
 reg("C03", [eng_data_random(M.mon_exclusive, {"PULL"}, tag="data-random"),
             eng_data_random(M.mon_exclusive, {"SR", "PULL"}, streams=True, tag="data-stream-random"),
@@ -538,9 +550,18 @@ reg("C09", [eng_codec_pure, eng_payload, eng_data_random(M.mon_payload, {"PULL"}
                "is injective below 2^32 per topic and topic instance ids are never reused. " + SEQ_NOTE,
     level_note="HTTP push payload fields are checked by the push engine (C14), not here; counters >= 2^32 are outside the guard.")
 
-reg("C10", [eng_control_random(None, {"CT", "CS"}), eng_names_echo],
+def eng_racing_namespace(ctx):
+    cases = gen.racing_namespace_cases(range(ctx.n(200, 4000)))
+    return ctx.seq("racing-namespace", cases, relevant={"JOIN", "GS", "GT", "LS", "LT", "CT", "CS"}, triggers={"JOIN"},
+                   monitor=M.mon_racing_namespace, always_monitor=True)
+
+
+reg("C10", [eng_control_random(None, {"CT", "CS"}), eng_names_echo, eng_racing_namespace],
     rule="random control-plane scripts over 2 projects x 3 topics x 4 subscriptions with deletions, re-creations, "
-         "cross-project and malformed names, interleaved with data-plane calls. non-trivial = a successful create",
+         "cross-project and malformed names, interleaved with data-plane calls; racing-namespace: two or three clients "
+         "that each do create-then-get or delete-then-get on ONE name, started without letting the runtime settle "
+         "(seeded), with publishers keeping the topic busy - statuses are read off the answers on every case. "
+         "non-trivial = a successful create",
     monitor=None, title="Topic and subscription namespaces behave as atomic maps", design_ref="7/C10",
     technique="Coq: inductive control-plane invariant over all server histories, status/effect theorem per operation; "
               "differential correspondence of status codes and bodies",
